@@ -3,7 +3,23 @@ PENDING = "static check not built yet in this round (see DESIGN.md section 3 for
 for i in range(1, 21):
     NOT_APPLICABLE["C%02d" % i] = PENDING
 
+EXTRA = {
+ "C01": " Also: every key press/release and every axis report (whatever its raw value) reaches its handler under the event mutex (paths of processEvent under representative type/value assumptions), every received event is handed to processEvent, and the holder table is one fresh zeroed note table per channel.",
+ "C02": " Also: the holder table that decides whether the pinned Note Off is sent is a fresh note table per channel (never shared between channels).",
+ "C06": " Also: the Bidirectional flag that selects the transfer function is derived by the parser from the presence of the negative field, and the position compared with the deadzone is the un-flipped one (flip applies after the deadzone).",
+ "C08": " Also: every axis report reaches the key-emulation switch whatever its raw value (dispatch of processEvent).",
+ "C10": " Also: no failed conversion in the parser region can reach a success return (except a fallback that re-validates the same operand), and event codes come only from a table hit or a full-string strconv parse. The parser is analysed as a region (ParseData plus the config-package helpers it calls), so splitting it into helpers changes nothing.",
+ "C12": " Also: every failure in the parse chain (decoder, conversions, file read) is returned, so a file that fails to parse can never be registered.",
+ "C13": " Also: the channel the burst is addressed to (used unmasked) is within 0..15: every store to Device.channel preserves it and the parser establishes defaults.channel in 1..16.",
+ "C15": " Also: a relay that parks a received message in a variable and writes it from a later select iteration must have its receive case gated.",
+ "C17": " R17.1 is decided on the paths of one iteration of the MIDI-input loop under representative (type, velocity) assumptions, and the map written must be re-read from the Device field inside the critical section (Panic replaces it).",
+ "C18": " Also: every file of the shipped hidi-config tree is matched by a //go:embed pattern of the template (go/packages EmbedFiles vs the source tree).",
+ "C19": " The consumer is decided on paths: every path that takes the change-notification case cancels the per-cycle context before waiting again or returning.",
+ "C20": " Also: nothing reachable from grouping/classification reads package-level state that the program modifies (caches, counters).",
+}
+
 def claim(pid, text, note, technique):
+    text = text + EXTRA.get(pid, "")
     CLAIMED[pid] = dict(text=text, note=note, technique=technique)
     NOT_APPLICABLE.pop(pid, None)
 
